@@ -185,32 +185,39 @@ theorem run_within {g : Grammar} :
 
 /-! ### the grammar as a tree grammar -/
 
-/-- `Kids g nul e t`: `t` is a sibling chain (after `prune`) that expression `e` can leave behind.  A call of a
-rule marked non-nullable always leaves its node; every node's children are described by the rule's body. -/
-inductive Kids (g : Grammar) (nul : List Bool) : Expr → T → Prop
-  | eps : Kids g nul .eps .nil
-  | rng {lo hi} : Kids g nul (.rng lo hi) .nil
-  | any : Kids g nul .any .nil
-  | notP {e} : Kids g nul (.notP e) .nil
-  | andP {e} : Kids g nul (.andP e) .nil
-  | callEmpty {r} : nul.getD r true = true → Kids g nul (.call r) .nil
-  | callNode {r body b e up} : g.rules[r]? = some body → Kids g nul body up → b < e →
-      Kids g nul (.call r) (.node r b e up .nil)
-  | seq {a b t1 t2} : Kids g nul a t1 → Kids g nul b t2 → Kids g nul (.seq a b) (t1.append t2)
-  | altL {a b t} : Kids g nul a t → Kids g nul (.alt a b) t
-  | altR {a b t} : Kids g nul b t → Kids g nul (.alt a b) t
-  | starNil {e} : Kids g nul (.star e) .nil
-  | starCons {e t1 t2} : Kids g nul e t1 → Kids g nul (.star e) t2 → Kids g nul (.star e) (t1.append t2)
-  | plus {e t1 t2} : Kids g nul e t1 → Kids g nul (.star e) t2 → Kids g nul (.plus e) (t1.append t2)
-  | optNil {e} : Kids g nul (.opt e) .nil
-  | optSome {e t} : Kids g nul e t → Kids g nul (.opt e) t
-  | capEmpty {e} : Kids g nul (.cap e) .nil
-  | capNode {e b e' up} : Kids g nul e up → b < e' → Kids g nul (.cap e) (.node g.pegText b e' up .nil)
+/-- `Kids g nul e lo hi t`: `t` is a sibling chain (after `prune`) that expression `e` can leave behind when it
+matches the span `[lo, hi)`.  A call of a rule marked non-nullable, and any call over a non-empty span, leaves its
+node; every node's children are described by the rule's body over the node's own span. -/
+inductive Kids (g : Grammar) (nul : List Bool) : Expr → Nat → Nat → T → Prop
+  | eps {p} : Kids g nul .eps p p .nil
+  | rng {lo hi p} : Kids g nul (.rng lo hi) p (p + 1) .nil
+  | any {p} : Kids g nul .any p (p + 1) .nil
+  | notP {e p} : Kids g nul (.notP e) p p .nil
+  | andP {e p} : Kids g nul (.andP e) p p .nil
+  | callEmpty {r p} : nul.getD r true = true → Kids g nul (.call r) p p .nil
+  | callNode {r body b e up} : g.rules[r]? = some body → Kids g nul body b e up → b < e →
+      Kids g nul (.call r) b e (.node r b e up .nil)
+  | seq {a b lo mid hi t1 t2} : Kids g nul a lo mid t1 → Kids g nul b mid hi t2 →
+      Kids g nul (.seq a b) lo hi (t1.append t2)
+  | altL {a b lo hi t} : Kids g nul a lo hi t → Kids g nul (.alt a b) lo hi t
+  | altR {a b lo hi t} : Kids g nul b lo hi t → Kids g nul (.alt a b) lo hi t
+  | starNil {e p} : Kids g nul (.star e) p p .nil
+  | starCons {e lo mid hi t1 t2} : Kids g nul e lo mid t1 → Kids g nul (.star e) mid hi t2 →
+      Kids g nul (.star e) lo hi (t1.append t2)
+  | plus {e lo mid hi t1 t2} : Kids g nul e lo mid t1 → Kids g nul (.star e) mid hi t2 →
+      Kids g nul (.plus e) lo hi (t1.append t2)
+  | optNil {e p} : Kids g nul (.opt e) p p .nil
+  | optSome {e lo hi t} : Kids g nul e lo hi t → Kids g nul (.opt e) lo hi t
+  | capEmpty {e p} : Kids g nul (.cap e) p p .nil
+  | capNode {e b e' up} : Kids g nul e b e' up → b < e' → Kids g nul (.cap e) b e' (.node g.pegText b e' up .nil)
+
+theorem Kids.le {g : Grammar} {nul : List Bool} {e : Expr} {lo hi : Nat} {t : T} (h : Kids g nul e lo hi t) : lo ≤ hi := by
+  induction h <;> omega
 
 /-- Every tree the matcher returns, pruned as `AST()` does, conforms to the grammar. -/
 theorem run_kids {g : Grammar} {nul : List Bool} (hn : NulSound g nul) :
     ∀ (fuel : Nat) (e : Expr) (pos : Nat) (s : List Nat) (p' : Nat) (s' : List Nat) (t : T),
-      run g fuel e pos s = .ok p' s' t → Kids g nul e (prune t) := by
+      run g fuel e pos s = .ok p' s' t → Kids g nul e pos p' (prune t) := by
   intro fuel
   induction fuel with
   | zero => intro e pos s p' s' t h; simp [run] at h
@@ -219,7 +226,7 @@ theorem run_kids {g : Grammar} {nul : List Bool} (hn : NulSound g nul) :
     cases e with
     | eps =>
       simp only [run, Res.ok.injEq] at h
-      obtain ⟨_, _, rfl⟩ := h; exact .eps
+      obtain ⟨rfl, _, rfl⟩ := h; exact .eps
     | rng lo hi =>
       cases s with
       | nil => simp [run] at h
@@ -227,14 +234,14 @@ theorem run_kids {g : Grammar} {nul : List Bool} (hn : NulSound g nul) :
         simp only [run] at h
         split at h
         · simp only [Res.ok.injEq] at h
-          obtain ⟨_, _, rfl⟩ := h; exact .rng
+          obtain ⟨rfl, _, rfl⟩ := h; exact .rng
         · simp at h
     | any =>
       cases s with
       | nil => simp [run] at h
       | cons c r =>
         simp only [run, Res.ok.injEq] at h
-        obtain ⟨_, _, rfl⟩ := h; exact .any
+        obtain ⟨rfl, _, rfl⟩ := h; exact .any
     | call r =>
       simp only [run] at h
       split at h
@@ -249,7 +256,7 @@ theorem run_kids {g : Grammar} {nul : List Bool} (hn : NulSound g nul) :
           simp only [prune]
           split
           · rename_i heq
-            -- the rule matched the empty string: it must be marked nullable
+            subst heq
             apply Kids.callEmpty
             cases hnr : nul.getD r true with
             | true => rfl
@@ -293,7 +300,7 @@ theorem run_kids {g : Grammar} {nul : List Bool} (hn : NulSound g nul) :
         · rename_i x hx
           cases x <;> simp_all
       · simp only [Res.ok.injEq] at h
-        obtain ⟨_, _, rfl⟩ := h; exact .starNil
+        obtain ⟨rfl, _, rfl⟩ := h; exact .starNil
       · simp at h
     | plus e =>
       simp only [run] at h
@@ -313,20 +320,20 @@ theorem run_kids {g : Grammar} {nul : List Bool} (hn : NulSound g nul) :
       simp only [run] at h
       split at h
       · simp only [Res.ok.injEq] at h
-        obtain ⟨_, _, rfl⟩ := h; exact .optNil
+        obtain ⟨rfl, _, rfl⟩ := h; exact .optNil
       · exact .optSome (ih e pos s _ _ _ h)
     | notP e =>
       simp only [run] at h
       split at h
       · simp at h
       · simp only [Res.ok.injEq] at h
-        obtain ⟨_, _, rfl⟩ := h; exact .notP
+        obtain ⟨rfl, _, rfl⟩ := h; exact .notP
       · simp at h
     | andP e =>
       simp only [run] at h
       split at h
       · simp only [Res.ok.injEq] at h
-        obtain ⟨_, _, rfl⟩ := h; exact .andP
+        obtain ⟨rfl, _, rfl⟩ := h; exact .andP
       · rename_i x hx
         cases x <;> simp_all
     | cap e =>
@@ -338,7 +345,7 @@ theorem run_kids {g : Grammar} {nul : List Bool} (hn : NulSound g nul) :
         have hk := ih e pos s _ _ _ h1
         simp only [prune]
         split
-        · exact .capEmpty
+        · rename_i heq; subst heq; exact .capEmpty
         · have hp := run_pos h1
           exact .capNode hk (by omega)
       · rename_i x hx
@@ -630,12 +637,12 @@ theorem parse_safe {g : Grammar} {nul cap : List Bool} {rk : List Nat} (hw : WF 
 
 /-! ### Kids inversion -/
 
-theorem Kids.call_inv {g : Grammar} {nul : List Bool} {r : Nat} {t : T} (h : Kids g nul (.call r) t) :
-    (t = .nil ∧ nul.getD r true = true) ∨
-    ∃ body b e up, g.rules[r]? = some body ∧ t = .node r b e up .nil ∧ b < e ∧ Kids g nul body up := by
+theorem Kids.call_inv {g : Grammar} {nul : List Bool} {r lo hi : Nat} {t : T} (h : Kids g nul (.call r) lo hi t) :
+    (t = .nil ∧ lo = hi ∧ nul.getD r true = true) ∨
+    ∃ body up, g.rules[r]? = some body ∧ t = .node r lo hi up .nil ∧ lo < hi ∧ Kids g nul body lo hi up := by
   cases h with
-  | callEmpty h => exact .inl ⟨rfl, h⟩
-  | callNode hb hk hlt => exact .inr ⟨_, _, _, _, hb, rfl, hlt, hk⟩
+  | callEmpty h => exact .inl ⟨rfl, rfl, h⟩
+  | callNode hb hk hlt => exact .inr ⟨_, _, hb, rfl, hlt, hk⟩
 
 theorem Safe.up {pt n r b e : Nat} {u nx : T} (h : Safe pt n (.node r b e u nx)) : Safe pt n u := by
   cases h with | node _ _ _ hu _ => exact hu
